@@ -100,6 +100,20 @@ add("C33", "puremon", "exploration",
     "Generated CSV files for generated schemas (valid rows; wrong field counts, bad quoting, unparsable values and timestamps at any position; header / no header; time formats and zones; chunk sizes 1..n+1) loaded with the loader's own chunk loop; either every data row is loaded with parse-equal values or an error is reported; a panic is neither.",
     PURE_NOTE + " Timestamps are parsed by an independent time.ParseInLocation for the oracle.", "differential monitor on the real CSV loader", "DESIGN.md 4 C33")
 
+REF_NOTE = "The real write and query paths are driven in-process on a fresh root per case (checkptr build; -race build in the thorough tier); the oracle is an executable reference model written from the property text. Held on the histories generated for the seed."
+add("C08", "refmon", "exploration",
+    "Generated write histories for fixed-length buckets (all timeframes 1Sec-1D, all ten column types, unsorted rows, duplicates within and across requests, year boundaries, leap days, 2-3 years, >=100 commands per file) against a last-writer-wins interval map: the unrestricted query must return exactly the map's rows in ascending time with Epoch = interval start and bit-identical values.",
+    REF_NOTE + " UTC configuration (zones are C30).", "executable reference model (interval map) vs. the real storage path", "DESIGN.md 4 C08")
+add("C09", "refmon", "exploration",
+    "Generated write histories for variable-length buckets (1-300 records per interval and an aimed stratum with thousands of compressible records, repeated appends, several intervals and years, unsorted input, payload shapes from incompressible to constant, boundary nanosecond offsets and whole seconds): result must be a permutation of the written multiset (unique ids, torn records visible), non-decreasing in time, each timestamp in its interval and at most one resolution step early.",
+    REF_NOTE + " UTC configuration.", "executable reference model (record multiset) vs. the real storage path", "DESIGN.md 4 C09")
+add("C14", "refmon", "exploration",
+    "(bucket schema, input schema) pairs over the ten numeric types with edits {same, missing, extra, renamed, reordered, retyped} and boundary values; multi-bucket requests with the mismatching bucket first/middle/last (repeated until both map orders were observed): a mismatch by name is rejected and no bucket named in the request changes (checked immediately, after an unrelated flush and after a restart); matching names with other types are stored as the Go conversion of the input.",
+    REF_NOTE + " Implementation-defined float->int conversions are not compared.", "executable reference model (Go conversions, snapshots before/after) vs. the real write path", "DESIGN.md 4 C14")
+add("C15", "refmon", "exploration",
+    "Buckets created through DataService.Create, the gRPC service and first-write auto-creation with column counts {1,2,255,256,1024,1025}, name lengths {1..300} (ASCII and multi-byte), all types, timeframes and both record types, then written (incl. first interval of the year, large 1D records) and restarted: the reported and enforced schema must equal the requested one, or the creation must have been rejected.",
+    REF_NOTE + " Restart = fresh instance on the same root in the same process.", "schema round-trip monitor across a real reload", "DESIGN.md 4 C15")
+
 ALL = [json.loads(l) for l in open(os.path.join(V, "properties.jsonl"))]
 
 def main():
